@@ -20,10 +20,10 @@ FILES = ["NodeStateOps.tla", "FdOps.tla", "Gossip.tla", "Detector.tla", "MC_Dete
          "TraceDetector.tla", "MC_TraceDetector.tla", "ObserveDetector.tla", "MC_ObserveDetector.tla"]
 
 FORMULAS = {
-    "C10": {"inv": ["C10_TwoObservations"], "props": ["C10_Complete"]},
+    "C10": {"inv": ["C10_TwoObservations", "C10_UsableEvidence"], "props": ["C10_Complete"]},
     "C11": {"inv": ["C11_NeedsEvidence"], "props": ["C11_StaleIgnored", "C11_SteadyObs"]},
 }
-TRACE_INV = ["C10_TwoObservations", "C11_NeedsEvidence", "C12_Sets"]
+TRACE_INV = ["C10_TwoObservations", "C10_UsableEvidence", "C11_NeedsEvidence", "C12_Sets"]
 TRACE_PROPS = ["C10_Complete", "C11_StaleIgnored", "C11_Steady", "C11_SteadyObs", "C12_Partition", "C13_Publish"]
 
 
@@ -100,7 +100,7 @@ def run(prop, tier, seed, replay=None):
         models[name] = {"distinct": m["distinct"], "generated": m["generated"], "replayed": nb, "diverged": nd}
         if not samples:
             samples = vlib.sample_edges(m["edges_file"], 2)
-        for o in [o for o in outs if o.get("diverged")][:4]:
+        for o in [o for o in outs if o.get("diverged") is True][:4]:
             lines = ['{"a":"Reset"}\n'] + [json.dumps(G.strip({k: v for k, v in dict(e, i=i).items()
                                                                if k not in ("out", "outlen")})) + "\n"
                                           for i, e in enumerate(o["events"])]
